@@ -21,14 +21,19 @@ TOL = 1e-8
 TOL_MODES = 1e-12
 
 RULE = (
-    "One run = one (trainer in {ISV, JFA, i-vector}, UBM, list of N<=14 labelled GMM statistics, "
-    "bag partition layout, label container, executor model, scheduling policy) drawn from "
-    "blake2b(VERIF_SEED/i); the real fit(bag[, y]) runs under SimScheduler and is compared with "
-    "fit(list[, y]) of the same tree and, in half of the runs, across the three executor models. "
-    "Layouts: explicit partitions incl. empty, singleton, class-mixing partitions and unsorted "
-    "labels, and from_sequence(npartitions=1..N). Fixed cases enumerate every partition count "
-    "1..N for N<=5 (thorough N<=7) x 3 trainers x 3 executor models. Non-trivial = at least one "
-    "real scheduling choice; distinct = distinct (case digest, event-log digest)."
+    "One run = one (trainer in {ISV, JFA, i-vector}, UBM, list of 2..40 labelled GMM statistics, "
+    "bag partition layout (explicit partitions incl. empty, singleton, class-mixing ones; "
+    "from_sequence with 1..N partitions), way the bag is built (plain, mapped, concatenation of "
+    "mapped bags, generator partitions - lazy single-pass iterators, i-vector only), label "
+    "container/dtype (list, tuple, int64/int32/uint8 array, bag), earlier life of the machine "
+    "object (fresh, enrolled before, trained before), executor model in {shared, isolated, "
+    "placed(W), threads(T)}, scheduling policy) drawn from blake2b(VERIF_SEED/i); the real "
+    "fit(bag[, y]) runs under SimScheduler and is compared with fit(list[, y]) of the same tree "
+    "and, in half of the runs, across executor models. Fixed cases: every partition count 1..N "
+    "for N<=5 (thorough N<=7) x 3 trainers x 3 executor models; a fault-free sub-batch; N in "
+    "{15,17,31,33,65} (thorough ..129) statistics with N, N-1 and N/2 partitions. Non-trivial = "
+    "at least one real scheduling choice; distinct = distinct (case digest, event-log + result "
+    "digest)."
 )
 ASSUMPTIONS = [
     "SimScheduler models Dask's shared-memory, multiprocessing and distributed executors; "
